@@ -5,6 +5,8 @@ package main
 import (
 	"fmt"
 	"go/ast"
+	"go/types"
+	"strconv"
 	"strings"
 )
 
@@ -707,6 +709,74 @@ func ruleDefs(c *RC) *RuleResult {
 		} else {
 			r.fail(fn.Name+"/definition", c.Prog.Pos(fn.Decl), fmt.Sprintf("anti-MEV switch is %s, expected %s; differs at %s", got, fAMEV(), cex))
 		}
+		// the comparison is made after a conversion: it must be value-preserving, or "below the enabling height" is
+		// decided on a truncated number (an enabling height of 2^32+h would switch the extension on at height h)
+		info := fn.Pkg.TypesInfo
+		sizes := types.SizesFor("gc", "amd64")
+		ast.Inspect(fn.Decl.Body, func(n ast.Node) bool {
+			call, ok := n.(*ast.CallExpr)
+			if !ok || len(call.Args) != 1 {
+				return true
+			}
+			tv, ok := info.Types[call.Fun]
+			if !ok || !tv.IsType() {
+				return true
+			}
+			sel, ok := ast.Unparen(call.Args[0]).(*ast.SelectorExpr)
+			if !ok || sel.Sel.Name != "AntiMEVExtensionEnablingHeight" {
+				return true
+			}
+			src := info.TypeOf(call.Args[0])
+			r.Sites++
+			if sizes.Sizeof(tv.Type) >= sizes.Sizeof(src) {
+				r.ok(fn.Name + ": the enabling height is compared without narrowing")
+				return true
+			}
+			// narrowing: the configuration validator must bound the field by the target type's maximum
+			max := uint64(1)<<(8*uint(sizes.Sizeof(tv.Type))) - 1
+			bounded := false
+			if cc := c.configChecker(); cc != nil && len(cc.Params) == 1 {
+				bounded = true
+				fieldT := mkTerm(KSel, "AntiMEVExtensionEnablingHeight", mkTerm(KParam, cc.Params[0].Name()))
+				nacc := 0
+				for _, e := range c.exitsOf(cc) {
+					if len(e.Ret) != 1 || e.Ret[0].K != KNil {
+						continue
+					}
+					nacc++
+					okPath := false
+					for k, v := range e.F.m {
+						a := e.F.atoms[k]
+						if a == nil || a.Op != "lt" || a.A == nil || a.B == nil {
+							continue
+						}
+						// !(max < field)  or  field < max+1
+						if !v && a.A.K == KConst && a.B.S == fieldT.S {
+							if cv, err := strconv.ParseUint(a.A.S, 10, 64); err == nil && cv <= max {
+								okPath = true
+							}
+						}
+						if v && a.B.K == KConst && a.A.S == fieldT.S {
+							if cv, err := strconv.ParseUint(a.B.S, 10, 64); err == nil && cv <= max+1 {
+								okPath = true
+							}
+						}
+					}
+					if !okPath {
+						bounded = false
+					}
+				}
+				if nacc == 0 {
+					bounded = false
+				}
+			}
+			if bounded {
+				r.ok(fmt.Sprintf("%s: %s narrows the enabling height, which the configuration validator bounds by %d", fn.Name, types.ExprString(call.Fun), max))
+			} else {
+				r.fail(fn.Name+"/lossy-enabling-height", c.Prog.Pos(call), fmt.Sprintf("the enabling height (%s) is narrowed to %s before the comparison and the configuration validator does not bound it by %d: an enabling height above that switches the extension on at heights that are below it", src.String(), types.ExprString(call.Fun), max))
+			}
+			return true
+		})
 	} else {
 		r.unresolved("anti-MEV predicate (bool function reading Config.AntiMEVExtensionEnablingHeight)")
 	}
